@@ -97,6 +97,7 @@ func (c checkSchema) checkNode(node schema.Node, ss map[string]schema.Type) {
 	case *schema.MixedNode:
 		c.checkCompatibilityOfConstraints(node)
 		c.checkLinksOfNode(node, ss) // can panic
+		c.checkAdditionalPropertiesConstraint(node, ss)
 	case *schema.MixedValueNode:
 		c.checkCompatibilityOfConstraints(node)
 		c.checkLinksOfNode(node, ss) // can panic
